@@ -313,8 +313,7 @@ func runC05(env *core.Env) {
 	}
 	b.Conf = newConformer(40, 300)
 	b.OnState = checkState
-	b.Run()
-	validated := b.Conf.run(env)
+	// the two cheap phases run before the search, so that a slow machine cannot push them past the deadline
 	// a log that takes several read(2) calls (two 150 KB bodies), so that a read can fail after earlier ones succeeded
 	bigLog := newSynLog()
 	bigLog.t = bigLog.t.Add(48 * time.Hour)
@@ -324,6 +323,8 @@ func runC05(env *core.Env) {
 	big := rich.Store.WithLog(append(append([]byte{}, rich.Store.Log()...), bigLog.Bytes()...))
 	faultCov := unchangedWhateverPhase(env, "C05", []core.Store{rich.Store, tornVariants(rich.Store)[0], roots[nRoots-1], big, tornVariants(big)[0]}, crashCmd{"compact", core.R("", "--json", "compact")})
 	limitCov := c05NearLineLimit(env)
+	b.Run()
+	validated := b.Conf.run(env)
 	_ = os.Stderr
 	if len(samples.list) == 0 {
 		samples.add("(no state at the depth bound)")
